@@ -35,10 +35,11 @@ RHS = {
     "<=": ["5", "4", "1.5", '"ab"', "j"],
     ">": ["5", "4", "6", "0.5", '"aa"', "%lit5", "j", "nest.k.v"],
     ">=": ["5", "6", "1.5", '"ab"', "j"],
-    "in": ["[5, 6]", "[1, 2]", "[1, 2, 3, 4]", '["ab", "cd"]', "[1.5]", "[true]", "[null]", "r[1,10]", "r(5,9]", "%litlist", "l", '"xaby"', "[[1, 2, 3]]"],
+    "in": ["[5, 6]", "[1, 2]", "[1, 2, 3, 4]", '["ab", "cd"]', "[1.5]", "[true]", "[null]", "r[1,10]", "r(5,9]", "%litlist", "l", '"xaby"', "[[1, 2, 3]]",
+           "l[*]", "ls", "ls[*]", "%ql", "%qls", "l1", "l1[*]"],
 }
 UNARY = gen.UNARY
-PRELUDE = 'let lit5 = 5\nlet litab = "ab"\nlet litlist = [5, "ab"]\nlet qj = j\n'
+PRELUDE = 'let lit5 = 5\nlet litab = "ab"\nlet litlist = [5, "ab"]\nlet qj = j\nlet ql = l\nlet qls = ls[*]\n'
 FLIP = {"PASS": "FAIL", "FAIL": "PASS", "SKIP": "SKIP"}
 INV = {"<": ">=", "<=": ">", ">": "<=", ">=": "<"}
 
@@ -70,7 +71,9 @@ def rhs_model(txt):
     if txt.startswith("r"):
         return ("range", "float" if "." in txt else "int")
     lists = {"[5, 6]": [5, 6], "[1, 2]": [1, 2], "[1, 2, 3, 4]": [1, 2, 3, 4], '["ab", "cd"]': ["ab", "cd"], "[1.5]": [1.5],
-             "[true]": [True], "[null]": [None]}
+             "[true]": [True], "[null]": [None],
+             # a list that comes from the document (query or query-bound variable on the right-hand side)
+             "l": [1, 2, 3], "l[*]": [1, 2, 3], "ls": ["a", "b"], "ls[*]": ["a", "b"], "%ql": [1, 2, 3], "%qls": ["a", "b"], "l1": [5], "l1[*]": [5]}
     if txt in lists:
         return ("list", lists[txt])
     return None
